@@ -612,6 +612,45 @@ Definition expected_atail_other : list string := ["cgi_diffusion_address"].
 Definition addr_tails_ok (fs : list (string * string)) (t : list atail) : bool :=
   forallb (atail_ok fs) t && list_eqb (atail_other_names t) expected_atail_other && Nat.leb 15 (List.length t).
 
+(* Re-used slots.  On overwrite a cgi_*_address resolver hands back the OLD struct: cgi_delete_node on its id, cgi_free_X
+   (which frees what the struct points to but clears nothing), and the writer fills it again.  Whatever field the writer
+   does not set keeps the value of the entity that was replaced, in the session only.  A row is right when the writer
+   memsets the struct, or every field of the struct type is
+     - set by the writer, or
+     - a pointer whose element count -- the int declared immediately before it -- is set (a pointer is only read under
+       its count), or
+     - in_link (meaningful only for structs read from a file; new nodes are never inside a link), or
+     - one of the explicit exceptions below. *)
+Inductive rrow := RRow (fn resolver ty : string) (memset : bool) (assigned : list string).
+(* set by the resolver itself (cgi_converg_address copies the fixed name) / never filled by any writer (the point list and
+   the element range are read from the file on demand) *)
+Definition reinit_elsewhere : list (string * string) :=
+  [("cg_convergence_write", "name"); ("cg_ptset_write", "data"); ("cg_array_write", "range")].
+(* OPEN FINDING overwrite-keeps-attribute:DimensionalUnits_t:un -- cg_units_write sets five of the eight units; after a
+   cg_unitsfull_write the other three survive in the session.  Harmless once repaired (the fields are then assigned). *)
+Definition reinit_open_gaps : list (string * string) :=
+  [("cg_units_write", "current"); ("cg_units_write", "amount"); ("cg_units_write", "intensity")].
+Definition pair_mem (fn f : string) (l : list (string * string)) : bool :=
+  existsb (fun x => String.eqb (fst x) fn && String.eqb (snd x) f) l.
+Fixpoint counted_by (fl : list (string * Goto.ftype)) (assigned : list string) (f : string) : bool :=
+  match fl with
+  | (c, Goto.FInt) :: (((a, Goto.FPtr _) :: _) as t) => (String.eqb a f && smem c assigned) || counted_by t assigned f
+  | _ :: t => counted_by t assigned f
+  | [] => false
+  end.
+Definition unset_fields (ss : Goto.structs_t) (r : rrow) : list string :=
+  match r with
+  | RRow fn _ ty memset assigned =>
+      if memset then [] else
+      let fl := Goto.struct_fields ss ty in
+      map fst (filter (fun ft => negb (smem (fst ft) assigned || String.eqb (fst ft) "in_link" || counted_by fl assigned (fst ft)
+                                       || pair_mem fn (fst ft) reinit_elsewhere || pair_mem fn (fst ft) reinit_open_gaps)) fl)
+  end.
+Definition rrow_ok (ss : Goto.structs_t) (r : rrow) : bool := match unset_fields ss r with [] => true | _ => false end.
+Definition reinit_ok (ss : Goto.structs_t) (t : list rrow) : bool := forallb (rrow_ok ss) t && Nat.leb 20 (List.length t).
+Definition bad_rrows (ss : Goto.structs_t) (t : list rrow) : list (string * list string) :=
+  List.concat (map (fun r => match unset_fields ss r, r with [], _ => [] | l, RRow fn _ _ _ _ => [(fn, l)] end) t).
+
 (* what is ordered by name when a file is read: exactly the two arrays [cgns_sorted] says, with strcmp *)
 Definition expected_sort_calls : list string :=
   ["cgi_read_base: base -> nzones / sort_childnode_names"; "cgi_read_base: base -> npzones / sort_childnode_names"].
